@@ -31,6 +31,8 @@ func checkC05(tier, replay string) int {
 		}
 		parallelFor(n, func(i int) { one("S1/"+a.Name, a, s1Policy(names, i), engine.Options{}) })
 	}
+	// group actions outside the seven named ones (user_notif, errno/trace with data bits, an arbitrary word): the return set stays closed
+	runS1Raw(r)
 	x := refsem.ArchByName("x86_64")
 	ops := []seccomp.Operation{seccomp.Equal, seccomp.BitsNotSet, seccomp.LessOrEqual}
 	if tier == "thorough" {
